@@ -45,6 +45,17 @@ CHECKS = {
   text="Relates two executions of the real state machine for every generated (config, history): whenever can_block_update_idle_waiting says the loop may sleep, the blocking run jumps to the next input event without ticking while the reference run keeps ticking; all OS-observable output (key/button state transitions, unicode, mouse, scroll, raw codes) must agree event for event and millisecond for millisecond, including what a further tick would still emit after the last event.",
   note="Virtual clock: the nanosecond remainder carry of handle_time_ticks and real thread scheduling are not exercised (DESIGN.md §8). Two events in the same millisecond are excluded by construction (inherent +-1 tick jitter of the real loop). Four is_idle defects found by this check were repaired with fix: commits."),
 
+ "C10": dict(
+  cat="translation_validation", ref="DESIGN.md §4 C10",
+  technique="translation validation by generated programs: boolean expression ASTs are printed into switch conditions, compiled by the real parser and run by the real evaluator on generated environments, and compared with a reference evaluation of the written expression; exhaustive over all small expression shapes x truth assignments, proptest-generated beyond",
+  text="Every expression shape of up to N nodes (6 quick / 7 thorough) over three key leaves is compiled by the real parser and evaluated by the real Switch::actions under all 8 truth assignments; random expressions (all seven leaf kinds, up to depth 7 and 200 nodes, 1-12 cases with break/fallthrough, lossy key-timing ranges) under 6 generated environments each; plus held-keys + switch/fork key through the full state machine. Any difference between the fired cases and the reference evaluation is a violation.",
+  note="Pinned conventions: `not` = none of its operands, top-level list = or, empty list = default case, key-timing lt = at most / gt = more than at the documented rounded-down resolution, (layer x) = current active layer. F14 (nested list as last operand of not) was found by this check and repaired with a fix: commit."),
+ "C11": dict(
+  cat="exploration", ref="DESIGN.md §4 C11",
+  technique="exhaustive enumeration (all 65536 code values, every valid key code through three pipeline configurations, every accepted key name in eight configuration contexts) with round-trip and identity oracles, plus proptest-generated mapped-key configurations against a set computed by the harness",
+  text="Round trips over every u16 value (from_u16 domain inside the declared discriminants of both enums read from the tree, as_u16 / KeyCode transmute round trips, the two enums agree value for value), pipeline identity for every valid code (mapped to itself, transparent, process-unmapped-keys; reserved codes never output), every key name denotes the same code as layer action, macro item, fork trigger, switch key, override input, chords-v2 participant, defseq key and defsrc entry, and Cfg.mapped_keys equals the expected set for generated defsrc / deflayermap / process-unmapped-keys combinations.",
+  note="Linux tables only; enum bodies and key names are extracted from the tree under test. Placeholder variants declared in OsCode but not produced by from_u16 (KEY_749..766) are allowed and counted. Right-hand modifiers in defseq (F20) are a known finding shared with C12. The Miri run of the transmute round trip (DESIGN.md) is not part of the registered commands."),
+
  "C17": dict(
   cat="exploration", ref="DESIGN.md §4 C17, Appendix A.4/D",
   technique="model-based property testing: exhaustive schedule enumeration over the tap-dance key and one other key with gaps {0,1,T-1,T,T+1} + proptest-generated longer histories, compared with a reference model of lazy and eager tap-dance",
